@@ -391,6 +391,39 @@ def main():
 ''', hostile=True)
 
 
+P('near_limit', '''
+import sys, inspect
+DATA = {}
+def depth_now():
+    return len(inspect.stack(0))
+def rec(n):
+    if n == 0:
+        return 0
+    m = n - 1
+    return 1 + rec(m)
+def probe(k):
+    """Recurse until k frames are left below the recursion limit (k = 1: what any trace function needs for itself)."""
+    room = sys.getrecursionlimit() - depth_now()
+    try:
+        rec(room - k)
+        return 'fits'
+    except RecursionError:
+        return 'RecursionError'
+def main():
+    old = sys.getrecursionlimit()
+    sys.setrecursionlimit(depth_now() + 12)
+    try:
+        res = []
+        for k in (4, 2, 1):
+            res.append(probe(k))
+    finally:
+        sys.setrecursionlimit(old)
+    DATA['res'] = res
+    out('near_limit', res)
+    return res
+''', hostile=True)
+
+
 # --------------------------------------------------------------------------------------------
 # Generated programs (thorough tiers): every program of a small statement grammar, de-duplicated by
 # the event signature of its bare run.
